@@ -201,6 +201,17 @@ def cases(desc):
         for kk in (2, 3):
             for combo in itertools.permutations(reqs, kk):
                 yield "requires-nested-targets", {"root": tree, "ctcs": [{"name": f"c{q}", "ast": a} for q, a in enumerate(combo)]}
+    # upper bounds larger than the number of members (accepted by the UVL reader; also what is left when a member is
+    # removed from a group in place): [k..k+1], [1..2] over one child, [0..3] over two
+    if i == 7 % n:
+        for k in (1, 2, 3):
+            for mn, mx in ((k, k + 1), (k, k + 3), (0, k + 1), (1, k + 2), (k - 1 if k > 1 else 0, k + 1)):
+                if mn < 0 or mx < 1:
+                    continue
+                kids = [{"name": f"K{j}", "rels": [{"min": 1, "max": 1, "children": [{"name": f"K{j}m", "rels": []}]}] if j == 0 else []}
+                        for j in range(k)]
+                yield "card-max-exceeds-members", {"root": {"name": "W", "rels": [
+                    {"min": mn, "max": mx, "children": kids}, {"min": 0, "max": 1, "children": [{"name": "Opt", "rels": []}]}]}, "ctcs": []}
     # chains deeper than a default Python stack, alternating optional/mandatory links
     for wi, depth in enumerate((600, 1500, 3000)):
         if (wi + 9) % n == i:
@@ -210,6 +221,16 @@ def cases(desc):
                 cur["rels"].append({"min": j % 2, "max": 1, "children": [nxt]})
                 cur = nxt
             yield "very-deep-chain", {"root": root, "ctcs": []}
+            # the same depth with one-child relations of unusual cardinalities ([0..*], [1..*], [0..2], [1..3]) on the way
+            root = cur = {"name": "U0", "rels": []}
+            for j in range(1, depth):
+                nxt = {"name": f"U{j}", "rels": []}
+                card = {0: (0, -1), 7: (1, -1), 13: (0, 2), 21: (1, 3)}.get(j % 29, (j % 2, 1))
+                cur["rels"].append({"min": card[0], "max": card[1], "children": [nxt]})
+                if j % 29 in (0, 7):
+                    cur["rels"].append({"min": 0, "max": 1, "children": [{"name": f"U{j}s", "rels": []}]})
+                cur = nxt
+            yield "very-deep-chain-odd-cards", {"root": root, "ctcs": []}
     # deep chains (depth thresholds) with mixed mandatory/optional links and a group at the bottom
     for depth in (12, 20, 40):
         if depth % n != i:
@@ -374,3 +395,109 @@ def run_case(acc, judge, prop, source, spec, op_factory=None, case_no=0):
         cls3 = "history:parent-pointer-set-later" + ("|" + "+".join(tags) if tags else "")
         judge(acc, "history:parent-pointer-set-later", spec, m2, idx, sem_t, sem_c, tags, cls3,
               dict(payload, history=f"parent of {child.name} set after a first analysis"), op)
+    # history: an execution that raises in the middle of the traversal (a relation that temporarily holds something
+    # that is not a Feature), the model is repaired AND extended below an early feature, the same object analyses it
+    if op is not None and case_no % 5 == 2 and len(S.feature_names(spec)) >= 3:
+        import copy
+        r = rand.rng("semops-midfail", S.digest(spec))
+        m3 = S.build(spec)
+        es = copy.deepcopy(spec)
+        live, specs_f = [], list(S.features(es["root"]))
+        stack = [m3.root]
+        while stack:
+            f = stack.pop()
+            live.append(f)
+            for rel in reversed(f.relations):
+                stack.extend(reversed(rel.children))
+        with_rels = [k for k, f in enumerate(live) if f.relations]
+        if with_rels:
+            late = live[with_rels[-1]]
+            bad_rel = late.relations[-1]
+            bad_rel.children.append("not a feature")
+            raised = False
+            try:
+                op.execute(m3).get_result()
+            except Exception:  # noqa: BLE001 - the malformed model is outside the property's domain
+                raised = True
+            bad_rel.children.pop()
+            from flamapy.metamodels.fm_metamodel.models import Feature, Relation
+            early = live[with_rels[0]] if live[with_rels[0]] is not late or len(with_rels) == 1 else live[with_rels[0]]
+            tgt = early.relations[0].children[0]
+            tgt.add_relation(Relation(tgt, [Feature("Later9", [])], 0, 1))
+            for fs in specs_f:
+                if fs["name"] == tgt.name:
+                    fs.setdefault("rels", []).append({"min": 0, "max": 1, "children": [{"name": "Later9", "rels": []}]})
+            idx4, sem_t4, sem_c4 = reference(es, acc)
+            tags4 = model_tags(es)
+            cls4 = "history:after-a-failed-execution" + ("|" + "+".join(tags4) if tags4 else "")
+            if raised:
+                acc.count("history:first-execution-raised-mid-traversal")
+            judge(acc, "history:after-a-failed-execution", es, m3, idx4, sem_t4, sem_c4, tags4, cls4,
+                  {"source": "history:after-a-failed-execution", "spec": es if len(S.feature_names(es)) <= 80 else None,
+                   "before_edit": payload["spec"]}, op)
+    # history: a feature is moved by attaching it to its new parent FIRST and removing it from the old one afterwards
+    if op is not None and case_no % 5 == 3 and len(S.feature_names(spec)) >= 3:
+        import copy
+        from flamapy.metamodels.fm_metamodel.models import Relation
+        r = rand.rng("semops-attach-detach", S.digest(spec))
+        m4 = S.build(spec)
+        es = copy.deepcopy(spec)
+        par, objs = {}, []
+        stack = [m4.root]
+        while stack:
+            f = stack.pop()
+            objs.append(f)
+            for rel in f.relations:
+                for c in rel.children:
+                    par[id(c)] = f
+                    stack.append(c)
+        movable = [f for f in objs if id(f) in par]
+        f = r.choice(movable)
+        sub = set()
+        st = [f]
+        while st:
+            x = st.pop()
+            sub.add(id(x))
+            for rel in x.relations:
+                st.extend(rel.children)
+        dests = [d for d in objs if id(d) not in sub and d is not par[id(f)]]
+        if dests:
+            dest = r.choice(dests)
+            old = par[id(f)]
+            try:
+                op.execute(m4).get_result()
+            except Exception:  # noqa: BLE001 - judged by the main case
+                pass
+            card = r.choice([(1, 1), (0, 1)])
+            dest.add_relation(Relation(dest, [f], card[0], card[1]))           # attach ...
+            for rel in list(old.relations):                                    # ... then detach
+                if any(c is f for c in rel.children):
+                    rel.children.remove(f)
+                    if not rel.children:
+                        old.relations.remove(rel)
+                    elif rel.card_min > len(rel.children):                     # (keep the group satisfiable)
+                        rel.card_min = len(rel.children)
+            moved = None
+            for fs in S.features(es["root"]):
+                for rel in list(fs.get("rels", [])):
+                    for c in list(rel["children"]):
+                        if c["name"] == f.name and fs["name"] == old.name:
+                            rel["children"].remove(c)
+                            moved = c
+                            if not rel["children"]:
+                                fs["rels"].remove(rel)
+                            elif rel["min"] > len(rel["children"]):
+                                rel["min"] = len(rel["children"])
+            if moved is not None:
+                for fs in S.features(es["root"]):
+                    if fs["name"] == dest.name:
+                        fs.setdefault("rels", []).append({"min": card[0], "max": card[1], "children": [moved]})
+                        break
+                for rel in S.relations(es):
+                    pass
+                idx5, sem_t5, sem_c5 = reference(es, acc)
+                tags5 = model_tags(es)
+                cls5 = "history:moved-attach-then-detach" + ("|" + "+".join(tags5) if tags5 else "")
+                judge(acc, "history:moved-attach-then-detach", es, m4, idx5, sem_t5, sem_c5, tags5, cls5,
+                      {"source": "history:moved-attach-then-detach", "spec": es if len(S.feature_names(es)) <= 80 else None,
+                       "before_edit": payload["spec"]}, op)
